@@ -26,10 +26,10 @@ def gen(tier, rng):
         try: plain = inflfam.py_inflate(raw)          # only needed to PRODUCE the wrapper trailer; the spec re-decides everything
         except Exception: plain = b""
         modes = [0, 1, 3, 5, 6, 2, 4]
-        for mode in (modes if tier == "thorough" else [modes[k % 7], modes[(k + 3) % 7]]):
+        for mode in ([modes[(k + i) % 7] for i in (0, 2, 3, 5)] if tier == "thorough" else [modes[k % 7], modes[(k + 3) % 7]]):      # (every mode is visited as k advances)
             st = inflfam.wrap_stream(mode, raw, plain)
             for j, (api, calls, ta, to) in enumerate(inflfam.schedules(rng, len(st), tier, light=(len(st) > 6000 or len(plain) > 6000))):
-                for cpu in (inflfam.KERNEL_CPUS if (tier == "thorough" or j < 2) else [inflfam.KERNEL_CPUS[(k + j) % 3]]):
+                for cpu in (inflfam.KERNEL_CPUS if j < (4 if tier == "thorough" else 2) else [inflfam.KERNEL_CPUS[(k + j) % 3]]):
                     scns.append(igz.scenario(len(scns), api, list(st), wrap=mode, calls=calls, tail_ai=ta, tail_ao=to, cap=400000, mem=(k + j) % 3, prefill=j % 3,
                                              meta={"plan": "+".join(plan), "cpu": cpu}))
             k += 1
